@@ -115,7 +115,69 @@ def random_case(rng):
     return rows, qs
 
 
+def history_stream(ctx, count):
+    """one IndexedAssembly, many lookups; between lookups the returned (mutable) results are edited with their own public
+    operations — a later lookup must still equal the brute-force scan of the (unchanged) scaffold"""
+    from tola.assembly.indexed_assembly import IndexedAssembly
+    from tola.assembly.fragment import Fragment
+    from tola.assembly.gap import Gap
+    out, rng = ctx.out, ctx.rng
+    for _ in range(count):
+        rows, _qs = random_case(rng) if rng.random() < 0.3 else (None, None)
+        if rows is None:
+            rows, oid = [], 0
+            for _k in range(rng.randint(1, 6)):
+                if rows and rng.random() < 0.35:
+                    rows.append(conv.jgap(rng.choice([1, 2, 5])))
+                ln = rng.randint(1, 9)
+                rows.append(conv.jfrag(oid, f"c{oid}", 3, 3 + ln - 1, rng.choice([1, -1]))); oid += 1
+        rows = [r for r in rows if not (r["t"] == "F" and r["end"] - r["start"] > 10**6)] or [conv.jfrag(0, "c0", 1, 5, 1)]
+        L = sum(r["len"] if r["t"] == "G" else r["end"] - r["start"] + 1 for r in rows)
+        sc = conv.to_real_scaffold({"name": "s", "rows": rows})
+        oid_of = {id(r): jr["oid"] for r, jr in zip(sc.rows, rows) if jr["t"] == "F"}
+        try:
+            ia = IndexedAssembly("x", scaffolds=[sc])
+        except Exception:
+            continue
+        script = []
+        for step in range(rng.randint(2, 6)):
+            a = rng.randint(1, max(1, L)); b = rng.randint(a, min(L + 2, a + rng.choice([0, 1, 3, L])))
+            script.append(["lookup", a, b])
+            inp = {"rows": rows, "script": [list(x) for x in script]}
+            try:
+                o = ia.find_overlaps(Fragment("s", a, b, 1))
+            except Exception as e:
+                out.case("lookup-histories", inp, ("hist", len(script)))
+                out.oracle_fail("lookup-histories", inp, f"lookup raised {conv.errkind(e)} after a history of lookups/edits")
+                break
+            got = None if o is None else {"start": o.start, "end": o.end, "n": len(o.rows),
+                                          "oids": [oid_of.get(id(r), -1) if not isinstance(r, Gap) else -1 for r in o.rows]}
+            exp = brute(rows, a, b)
+            out.case("lookup-histories", inp, ("hist", len(script), exp is None))
+            if got != exp:
+                out.oracle_fail("lookup-histories", inp, "lookup after a history of lookups/edits differs from the brute-force scan",
+                                detail={"real": got, "expected": exp})
+                break
+            if o is not None and o.rows:
+                op = rng.choice(["none", "trim_last", "trim_first", "discard_end", "discard_start", "trim_large"])
+                try:
+                    if op == "trim_last":
+                        o.trim_fragment(o.rows[-1])
+                    elif op == "trim_first":
+                        o.trim_fragment(o.rows[0])
+                    elif op == "discard_end":
+                        o.discard_end()
+                    elif op == "discard_start":
+                        o.discard_start()
+                    elif op == "trim_large":
+                        o.trim_large_overhangs(rng.choice([1, 3]))
+                except Exception:
+                    pass
+                script.append([op])
+
+
 def run(ctx):
+    history_stream(ctx, 3000 if ctx.thorough else 500)
     cases = list(small_scope(4 if ctx.thorough else 3))
     check_scaffolds(ctx, "small-scope-exhaustive", cases)
     ctx.out.exhaustive = True
